@@ -83,8 +83,18 @@ Proof.
     now apply is_dir_appended.
 Qed.
 
+Lemma mkdir_all_inv fs p fs' : mkdir_all fs p = FOk fs' ->
+  (is_dir fs p = true /\ fs' = fs) \/ (is_dir fs p = false /\ mkdir_prefixes fs (prefixes p) = FOk fs').
+Proof.
+  unfold mkdir_all. destruct (is_dir fs p); [intros H; injection H as <-; now left|].
+  destruct (names_fit p); [|discriminate]. intros H. now right.
+Qed.
+
 Lemma mkdir_all_grows fs p fs' : mkdir_all fs p = FOk fs' -> grows fs fs'.
-Proof. apply mkdir_prefixes_grows. Qed.
+Proof.
+  intros H. apply mkdir_all_inv in H as [[_ ->]|[_ H]]; [apply grows_refl|].
+  now apply (mkdir_prefixes_grows (prefixes p)).
+Qed.
 
 (* ------------------------------------------------------------------ the prefixes of a clean path *)
 Lemma clean_rooted_shape p : is_rooted p = true ->
@@ -123,7 +133,8 @@ Qed.
 Lemma mkdir_all_is_dir fs p fs' : is_rooted p = true ->
   is_dir fs [sl] = true -> mkdir_all fs (clean p) = FOk fs' -> is_dir fs' (clean p) = true.
 Proof.
-  intros Hr Hroot H. destruct (clean_rooted_shape p Hr) as [E|(cs & Hne & HP & E)]; rewrite E in *.
-  - apply (is_dir_grows fs); [now apply (mkdir_all_grows _ [sl])|exact Hroot].
+  intros Hr Hroot H. apply mkdir_all_inv in H as [[Hd ->]|[_ H]]; [exact Hd|].
+  destruct (clean_rooted_shape p Hr) as [E|(cs & Hne & HP & E)]; rewrite E in *.
+  - apply (is_dir_grows fs); [now apply (mkdir_prefixes_grows (prefixes [sl]))|exact Hroot].
   - apply (mkdir_prefixes_dirs _ _ _ H). now apply in_prefixes_self.
 Qed.
